@@ -15,6 +15,7 @@ type Leaf struct {
 	Field  string `json:"field"`  // declared field name
 	Kind   string `json:"kind"`   // scalar fixed dyn len sum listprefix strprefix
 	Type   string `json:"type"`   // scalar type / prefix type
+	Elem   string `json:"elem,omitempty"` // list prefix: kind (and scalar type) of the elements
 	Off    int    `json:"off"`
 	Len    int    `json:"len"`
 }
@@ -67,7 +68,7 @@ func (e *enc) setUint(off int, v uint64, size int, le bool) {
 }
 
 func (e *enc) leaf(path, owner, field, kind, typ string, off, n int) {
-	e.lay.Leaves = append(e.lay.Leaves, Leaf{path, owner, field, kind, typ, off, n})
+	e.lay.Leaves = append(e.lay.Leaves, Leaf{Path: path, Owner: owner, Field: field, Kind: kind, Type: typ, Off: off, Len: n})
 }
 
 // Encode produces the canonical encoding of message v of packet k. registered tells whether a
@@ -93,6 +94,11 @@ func (e *enc) packet(k *dsl.Packet, v dsl.Val, path string) {
 		if f.Repeat {
 			sz := dsl.ScalarSize(e.cfg.AP)
 			e.leaf(fp+"#n", k.Name, f.Name, "listprefix", e.cfg.AP, len(e.buf), sz)
+			el := f.Kind.String()
+			if f.Kind == dsl.KScalar {
+				el += ":" + f.Type
+			}
+			e.lay.Leaves[len(e.lay.Leaves)-1].Elem = el
 			e.putUint(uint64(len(v.F[i].L)), sz, e.cfg.LE)
 			for j, it := range v.F[i].L {
 				e.one(k, f, it, fmt.Sprintf("%s[%d]", fp, j))
